@@ -223,6 +223,18 @@ def run(ctx):
         pchosen, ptimeouts = choose_party(rnd, pshort, pdeep, 150, 60, 12, 8, 24)
     else:
         pchosen, ptimeouts = choose_party(rnd, pshort, pdeep, 5000, 1500, 200, 96, 600)
+    # the same sequences with every proposal handled WHILE the faulty member's share over the party key,
+    # filed under the party key, keeps arriving (for the reference handler a cast like any other: v = 1);
+    # first those in which a member's share for the proposal follows the proposal (the threshold is reached)
+    def share_after_cast(h):
+        seq = h["h"]
+        return any(c["type"] == "cast" and any(v["type"] == "verify" and v["filed"] == c["filed"] for v in seq[i + 1:])
+                   for i, c in enumerate(seq))
+    fire = sorted(pchosen, key=lambda h: not share_after_cast(h))[:40 if quick else 1500]
+    under_fire = [dict(h, h=[dict(m, v=1) if m["type"] == "cast" else m for m in h["h"]]) for h in fire]
+    if not any(share_after_cast(h) for h in under_fire):
+        early_vacuous.append("(extension) no sequence with a proposal handled under party-key shares and a share after it")
+    pchosen = pchosen + under_fire
     drv = ctx.build("c15")
     pdrv = ctx.build("c15p")
     shards = 8 if quick else 16
@@ -252,10 +264,10 @@ def run(ctx):
     vacuous = early_vacuous + ["no %s occurred in the driven sequences" % need
                for need in KINDS + ["wire", "recovered", "messages"] if counts.get(need, 0) == 0]
     if not any(forged_first(h) for h in pchosen):
-        raise Inconclusive("vacuity (extension): no sequence with a forgery buffered before the honest share and the proposal")
-    for need in PARTY_TYPES + ["finalised", "twoBlocks"]:
+        vacuous.append("(extension) no sequence with a forgery buffered before the honest share and the proposal")
+    for need in PARTY_TYPES + ["finalised", "twoBlocks", "castUnderFire"]:
         if pcounts.get(need, 0) == 0:
-            raise Inconclusive("vacuity (extension): no %s occurred in the driven party sequences" % need)
+            vacuous.append("(extension) no %s occurred in the driven party sequences" % need)
     # 3. monitors: merged shard traces (a Start event resets the bound state), at most MAX_JVMS at a time
     merged = []
     for k in range(0, len(traces), 4):
